@@ -1,5 +1,6 @@
 import TempestVerif.Drv.Util
 import TempestVerif.Model.Resample
+import TempestVerif.Model.ResampleX
 /-
   line-protocol handlers of property C06
     syst.Q n=<nat> w=<rats> u0=<rat>                 (s = exact sum of w)
@@ -11,9 +12,17 @@ import TempestVerif.Model.Resample
     post.F / post.Q w=<scalars> u0=<scalar>                                                            (posterior, resample branch)
     mult.Q / mult.F  w=<scalars> us=<scalars>
   answer: comma-separated index list (`-` = empty) or the error tag `IndexError` / `ValueError`.
+  second pass (`Model.ResampleX`), F and Q each:
+    c06x.kahan w=<scalars>                       numpy's kahan_sum (`undefined` for the empty array)
+    c06x.check size=<nat> w=<scalars>            numpy's validation of p: ok|emptyPop|undefined|nan|negative|notSumOne
+    c06x.run beta0= scheme= n= w= u0= us=        Resampler.run with the validation inside
+    c06x.watr beta0=<0|1> w=<scalars>            the array execute_iteration hands to resampler.run (from exp(logw-max))
+    c06x.iter beta0= scheme= n= w= u0= us=       reweight-normalise -> trainer-normalise -> Resampler.run
+    c06x.postnt w= u0=                           compute_posterior(resample=True, trim=False) from exp(logw-max)
+    c06x.posttrim w= keep=<0|1 list> u0=         ... with trimming; keep = mask of the stopping pass of trim_weights
 -/
 namespace Drv.C06
-open Drv Model.Resample
+open Drv Model.Resample Model.ResampleX
 
 def showIdx (r : Option (List Nat)) (err : String) : String :=
   match r with
@@ -78,7 +87,69 @@ def postCmd (α : Type) [Sc α] [Codec α] (args : List (String × String)) : St
   | some w, some u0 => showIdx (posteriorResample w u0) "IndexError"
   | _, _ => "bad-op"
 
+
+/-! ### second pass -/
+
+def showCheck : ChoiceCheck → String
+  | .ok => "ok" | .emptyPop => "emptyPop" | .undefined => "undefined" | .nan => "nan"
+  | .negative => "negative" | .notSumOne => "notSumOne"
+
+def xKahan (α : Type) [Sc α] [Codec α] (args : List (String × String)) : String :=
+  match (getArg args "w").bind (parseList? (Codec.parse (α := α))) with
+  | some w => match kahanSum w with
+    | some s => Codec.shw s
+    | none => "undefined"
+  | none => "bad-op"
+
+def xCheck (α : Type) [Sc α] [Codec α] (args : List (String × String)) : String :=
+  match (getArg args "size").bind String.toNat?, (getArg args "w").bind (parseList? (Codec.parse (α := α))) with
+  | some n, some w => showCheck (choiceCheck n w)
+  | _, _ => "bad-op"
+
+def xRun (α : Type) [Sc α] [Codec α] (iter : Bool) (args : List (String × String)) : String :=
+  match (getArg args "beta0"), (getArg args "scheme"), (getArg args "n").bind String.toNat?,
+        (getArg args "w").bind (parseList? (Codec.parse (α := α))),
+        (getArg args "u0").bind (Codec.parse (α := α)),
+        (getArg args "us").bind (parseList? (Codec.parse (α := α))) with
+  | some b, some sch, some n, some w, some u0, some us =>
+    let scheme := if sch == "mult" then Scheme.mult else if sch == "syst" then Scheme.syst else Scheme.other
+    showRun (if iter then iterationResample (b == "1") scheme n w u0 us else resamplerRunX (b == "1") scheme n w u0 us)
+  | _, _, _, _, _, _ => "bad-op"
+
+def xWatr (α : Type) [Sc α] [Codec α] (args : List (String × String)) : String :=
+  match (getArg args "beta0"), (getArg args "w").bind (parseList? (Codec.parse (α := α))) with
+  | some b, some w => showList Codec.shw (weightsAtResampler (b == "1") w)
+  | _, _ => "bad-op"
+
+def xPostNt (α : Type) [Sc α] [Codec α] (args : List (String × String)) : String :=
+  match (getArg args "w").bind (parseList? (Codec.parse (α := α))),
+        (getArg args "u0").bind (Codec.parse (α := α)) with
+  | some w, some u0 => showIdx (posteriorResampleNoTrim w u0) "IndexError"
+  | _, _ => "bad-op"
+
+def xPostTrim (α : Type) [Sc α] [Codec α] (args : List (String × String)) : String :=
+  match (getArg args "w").bind (parseList? (Codec.parse (α := α))),
+        (getArg args "keep").bind (parseList? String.toNat?),
+        (getArg args "u0").bind (Codec.parse (α := α)) with
+  | some w, some keep, some u0 => showIdx (posteriorResampleTrim w (keep.map (· != 0)) u0) "IndexError"
+  | _, _, _ => "bad-op"
+
+def handleX (α : Type) [Sc α] [Codec α] (cmd : String) (args : List (String × String)) : Option String :=
+  match cmd with
+  | "c06x.kahan" => some (xKahan α args)
+  | "c06x.check" => some (xCheck α args)
+  | "c06x.run" => some (xRun α false args)
+  | "c06x.iter" => some (xRun α true args)
+  | "c06x.watr" => some (xWatr α args)
+  | "c06x.postnt" => some (xPostNt α args)
+  | "c06x.posttrim" => some (xPostTrim α args)
+  | _ => none
+
 def handle (cmd : String) (args : List (String × String)) : Option String :=
+  match cmd.splitOn "." with
+  | ["c06x", op, "F"] => handleX Float ("c06x." ++ op) args
+  | ["c06x", op, "Q"] => handleX Rat ("c06x." ++ op) args
+  | _ =>
   match cmd with
   | "syst.F" => if (getArg args "s").isSome then some (syst Float args) else some "bad-op"
   | "syst.Q" => some (syst Rat args)
